@@ -46,6 +46,8 @@ def field_meta(ch, key, sp):
         return ['Debug(name = %s, method(fmt_m))' % key, 'Debug(rename(%s), method = "fmt_m")' % key][sp % 2]
     if ch == 'y':
         return ['Debug(method(fmt_m), name = %s)' % key, 'Debug(method = "fmt_m", rename(%s))' % key][sp % 2]
+    if ch == 'z':
+        return ['Debug(ignore, method(fmt_poison))', 'Debug(method(fmt_poison), ignore = true)'][sp % 2]
     raise ValueError(ch)
 
 
@@ -77,10 +79,10 @@ def element(fl, assign, named_field, name, sp0):
         if renamed and not named_field:
             return None
         key = 'k%d' % fi if renamed else ('f%d' % fi if fl.style == 'n' else '_%d' % fi)
-        tys.append('ID' if ch == 'i' else FIELD_TY[fi % 3])
-        vals.append(['ID(0)', 'ID(1)'] if ch == 'i' else FIELD_VAL[fi % 3])
+        tys.append('ID' if ch in 'iz' else FIELD_TY[fi % 3])
+        vals.append(['ID(0)', 'ID(1)'] if ch in 'iz' else FIELD_VAL[fi % 3])
         metas.append(field_meta(ch, key, sp0 + fi))
-        if ch != 'i':
+        if ch not in 'iz':
             shown.append((key, 'a%d' % fi, ch in 'mxy'))
     if fl.style == 'u':
         if name is None:
@@ -133,7 +135,7 @@ def build_struct(fl, assign, nmode, nf_flip, sp, ctx='alone', generic=False):
     inst = "Ty<'static, u8, 0>" if generic else 'Ty'
     values = [S.ctor(shape, 0, [v[k % len(v)] for v in vals] + extra_val) for k in range(2)]
     src += 'fn values() -> Vec<%s> {\n    vec![%s]\n}\n' % (inst, ', '.join(values))
-    binds = ['a%d' % i if assign[i] != 'i' else '_' for i in range(fl.n)] + extra_bind
+    binds = ['a%d' % i if assign[i] not in 'iz' else '_' for i in range(fl.n)] + extra_bind
     src += 'fn model(x: &%s, f: &mut std::fmt::Formatter<\'_>) -> std::fmt::Result {\n    let %s = x;\n    %s\n}\n' % (
         inst, S.pattern(shape, 0, binds), model_body(style, name, shown))
     src += 'pub fn check(r: &mut Rep) {\n    let vs = values();\n    debug_check(r, &vs, &|x, alt| if alt { format!("{:#?}", x) } else { format!("{:?}", x) }, model);\n}\n'
@@ -191,7 +193,7 @@ def build_enum(fl, assign, emode, vmode, nf_flip, place_first, sp, ctx='alone', 
     src = S.render_type(shape, ['#[educe(%s)]' % traits], tys_all, fattrs_all, vattrs, generics=gen, where=where, derives='Educe')
     values = [S.ctor(shape, focus, [v[k % len(v)] for v in vals] + extra_val) for k in range(2)] + [S.ctor(shape, 1 - focus, ['V(7)'])]
     src += 'fn values() -> Vec<%s> {\n    vec![%s]\n}\n' % (inst, ', '.join(values))
-    binds = ['a%d' % i if assign[i] != 'i' else '_' for i in range(fl.n)] + extra_bind
+    binds = ['a%d' % i if assign[i] not in 'iz' else '_' for i in range(fl.n)] + extra_bind
     src += ('fn model(x: &%s, f: &mut std::fmt::Formatter<\'_>) -> std::fmt::Result {\n    match x {\n        %s => { %s }\n'
             '        %s => { %s }\n    }\n}\n') % (inst, S.pattern(shape, focus, binds), model_body(style, name, shown),
                                                S.pattern(shape, 1 - focus, ['a0']), model_body('tuple', sib_name, [('_0', 'a0', False)]))
@@ -235,7 +237,7 @@ def generate(tier):
     sp = 0
     lists = [S.Fields('u')] + [S.Fields(s, n) for n in range(0, fmax + 1) for s in 'tn']
     for fl in lists:
-        alph = 'srimxy' if fl.n <= 2 else 'srim'
+        alph = 'srimxyz' if fl.n <= 2 else 'srim'
         for assign in itertools.product(alph, repeat=fl.n):
             assign = ''.join(assign)
             for nmode in 'dro':
@@ -245,7 +247,7 @@ def generate(tier):
     for fl in lists:
         if fl.n == 0 and fl.style != 'u':
             continue
-        alph = 'srimxy' if fl.n <= 1 else ('srim' if (tier == 'quick' or fl.n > 2) else 'srimxy')
+        alph = 'srimxyz' if fl.n <= 1 else ('srimz' if (tier == 'quick' or fl.n > 2) else 'srimxyz')
         for assign in itertools.product(alph, repeat=fl.n):
             assign = ''.join(assign)
             for emode in 'der':
@@ -279,7 +281,7 @@ def generate(tier):
 
 
 RULE = ('structs: {unit, (), {}, tuple, named} with F fields x name {default, renamed, disabled} x named_field {default, flipped} x '
-        'per field {shown, renamed, ignored (type whose Debug panics), method, renamed+method in both parameter orders}; enums: focus '
+        'per field {shown, renamed, ignored (type whose Debug panics), method, renamed+method in both parameter orders, ignored+method (still ignored)}; enums: focus '
         'variant placed first/last next to a plain sibling x enum name {off, on, renamed} x variant name {default, renamed, disabled} '
         'x named_field x the same field alphabet; requests the documentation refuses (nameless empty shapes, rename on a positional '
         'field) belong to C13 and are skipped; generic struct (lifetime, bounded type and const parameters, where-clause) around the '
